@@ -115,3 +115,38 @@ def shape_error(nd: tg.Node, x: t.Any, path: str = '$', depth: int = 0) -> t.Opt
         errs = [shape_error(vn, x, path, depth + 1) for vn in nd.variants]
         return None if any(e is None for e in errs) else f"{path}: instance of no variant ({errs[0]})"
     return None
+
+
+_BASEVAL = {'str': (str, str.__str__), 'int': (int, int.__int__), 'float': (float, float.__float__), 'bytes': (bytes, lambda v: bytes(memoryview(v)))}
+
+
+def base_value_error(nd: tg.Node, v: t.Any, x: t.Any, path: str = '$', depth: int = 0) -> t.Optional[str]:
+    """
+    An instance of a *subclass* of an interchange type (a user subclass, a mixin enum member) given where the plain type is
+    declared: whether it is accepted is unspecified, but if it is, the image is the plain value it carries - the text of a
+    str subclass, not whatever its __str__ prints.  Walks lists / tuples / mapping values in parallel with the result.
+    """
+    if depth > 6:
+        return None
+    if isinstance(nd, tg.Scalar) and nd.name in _BASEVAL:
+        (base, get) = _BASEVAL[nd.name]
+        if isinstance(v, base) and type(v) is not base and type(v) is not bool and type(x) is base:
+            want = get(v)
+            if x != want:
+                return f"{path}: {type(v).__name__} instance {v!r} carrying {want!r} was converted to {x!r}"
+        return None
+    if isinstance(nd, (tg.Ann, tg.TypeVarN)) and not isinstance(getattr(nd, 'inner', None), tg.Union):
+        return base_value_error(nd.inner, v, x, path, depth + 1)
+    if isinstance(nd, tg.Seq) and not nd.setlike and tg.is_seq(v) and isinstance(x, (list, tuple, collections.deque)) and len(v) == len(x):
+        for (i, (a, b)) in enumerate(zip(v, x)):
+            d = base_value_error(nd.elem, a, b, f"{path}[{i}]", depth + 1)
+            if d:
+                return d
+        return None
+    if isinstance(nd, tg.Tup) and tg.is_seq(v) and isinstance(x, tuple) and len(v) == len(x) == len(nd.elems):
+        for (i, (e, a, b)) in enumerate(zip(nd.elems, v, x)):
+            d = base_value_error(e, a, b, f"{path}[{i}]", depth + 1)
+            if d:
+                return d
+        return None
+    return None
